@@ -151,10 +151,40 @@ func init() {
 		Find: "\tif collateralizationRatio.LT(liqRatio) {", Replace: "\tif collateralizationRatio.LTE(liqRatio) {", Rule: "R09.1", Contains: "LiquidateIndividualVault"})
 	addControl(Control{Prop: "C09", Name: "v2-borrow-sweep-drop-key", File: "x/liquidationsV2/keeper/liquidate.go",
 		Find: "\tliquidationOffsetHolder.AppId = offsetCounterId\n\tk.SetLiquidationOffsetHolder(ctx, types.VaultLiquidationsOffsetPrefix, liquidationOffsetHolder)\n\n\treturn nil\n}\n\nfunc (k Keeper) LiquidateIndividualBorrow(", Replace: "\tk.SetLiquidationOffsetHolder(ctx, types.VaultLiquidationsOffsetPrefix, liquidationOffsetHolder)\n\n\treturn nil\n}\n\nfunc (k Keeper) LiquidateIndividualBorrow(", Rule: "R09.3", Contains: "LiquidateBorrows offset key"})
+	// ---- C06 ----
+	addControl(Control{Prop: "C06", Name: "translation-cases-reordered", File: "x/liquidity/amm/pool.go",
+		Find:    "\tcase rxDec.Quo(ryDec).IsZero(): // y asset single pool\n\t\tsqrtP = sqrtM\n\tcase ryDec.Quo(rxDec).IsZero(): // x asset single pool\n\t\tsqrtP = sqrtL\n",
+		Replace: "\tcase ryDec.Quo(rxDec).IsZero(): // x asset single pool\n\t\tsqrtP = sqrtL\n\tcase rxDec.Quo(ryDec).IsZero(): // y asset single pool\n\t\tsqrtP = sqrtM\n", Negative: true})
+	addControl(Control{Prop: "C06", Name: "translation-x-single-wrong-bound", File: "x/liquidity/amm/pool.go",
+		Find:    "\tcase ryDec.Quo(rxDec).IsZero(): // x asset single pool\n\t\tsqrtP = sqrtL\n",
+		Replace: "\tcase ryDec.Quo(rxDec).IsZero(): // x asset single pool\n\t\tsqrtP = sqrtM\n", Rule: "R06.4", Contains: "DeriveTranslation"})
+	// ---- C09 (late rules) ----
+	addControl(Control{Prop: "C09", Name: "lend-delete-LTE-form", File: "x/liquidationsV2/keeper/liquidate.go",
+		Find:    "\tif !lendPos.AmountIn.Amount.GT(sdk.ZeroInt()) {",
+		Replace: "\tif lendPos.AmountIn.Amount.LTE(sdk.ZeroInt()) {", Negative: true})
+	addControl(Control{Prop: "C09", Name: "lend-delete-ispositive-form", File: "x/liquidationsV2/keeper/liquidate.go",
+		Find:    "\tif !lendPos.AmountIn.Amount.GT(sdk.ZeroInt()) {",
+		Replace: "\tif !lendPos.AmountIn.Amount.IsPositive() {", Negative: true})
+	addControl(Control{Prop: "C09", Name: "lend-delete-under-GTE", File: "x/liquidationsV2/keeper/liquidate.go",
+		Find:    "\tif !lendPos.AmountIn.Amount.GT(sdk.ZeroInt()) {",
+		Replace: "\tif lendPos.AmountIn.Amount.GTE(sdk.ZeroInt()) {", Rule: "R09.9", Contains: "LiquidateIndividualBorrow"})
+	addControl(Control{Prop: "C09", Name: "v2-borrow-sweep-key-via-locals", File: "x/liquidationsV2/keeper/liquidate.go",
+		Find:    "\tliquidationOffsetHolder, found := k.GetLiquidationOffsetHolder(ctx, types.VaultLiquidationsOffsetPrefix, offsetCounterId)\n\tif !found {\n\t\tliquidationOffsetHolder = types.NewLiquidationOffsetHolder(0)\n\t}\n\tborrowIDs := borrows",
+		Replace: "\tcursorPrefix := types.VaultLiquidationsOffsetPrefix\n\tliquidationOffsetHolder, found := k.GetLiquidationOffsetHolder(ctx, cursorPrefix, offsetCounterId)\n\tif !found {\n\t\tliquidationOffsetHolder = types.NewLiquidationOffsetHolder(0)\n\t}\n\tborrowIDs := borrows", Negative: true})
+	addControl(Control{Prop: "C06", Name: "executor-checks-status-itself", File: "x/liquidity/keeper/pool.go",
+		Find:    "func (k Keeper) ExecuteDepositRequest(ctx sdk.Context, req types.DepositRequest) error {\n",
+		Replace: "func (k Keeper) ExecuteDepositRequest(ctx sdk.Context, req types.DepositRequest) error {\n\tif req.Status != types.RequestStatusNotExecuted {\n\t\treturn nil\n\t}\n", Negative: true})
+	addControl(Control{Prop: "C06", Name: "withdraw-denom-test-inverted", File: "x/liquidity/keeper/pool.go",
+		Find:    "\tif msg.PoolCoin.Denom != pool.PoolCoinDenom {",
+		Replace: "\tif msg.PoolCoin.Denom == pool.PoolCoinDenom {", Rule: "R06.5", Contains: "Withdraw"})
 	// ---- C10 ----
 	addControl(Control{Prop: "C10", Name: "v2-elapsed-via-local", File: "x/auctionsV2/keeper/auctions.go",
 		Find:    "\ttimeElapsed := ctx.BlockTime().Sub(dutchAuction.StartTime)",
 		Replace: "\troundStart := dutchAuction.StartTime\n\ttimeElapsed := ctx.BlockTime().Sub(roundStart)", Negative: true})
+	addControl(Control{Prop: "C10", Name: "v2-elapsed-in-helper", File: "x/auctionsV2/keeper/auctions.go",
+		Find:    "\ttimeElapsed := ctx.BlockTime().Sub(dutchAuction.StartTime)",
+		Replace: "\ttimeElapsed := elapsedSinceZZ(ctx, dutchAuction.StartTime)", Negative: true,
+		Append: "\nfunc elapsedSinceZZ(ctx sdk.Context, start time.Time) time.Duration {\n\treturn ctx.BlockTime().Sub(start)\n}\n"})
 	addControl(Control{Prop: "C10", Name: "v2-elapsed-from-end-time", File: "x/auctionsV2/keeper/auctions.go",
 		Find:    "\ttimeElapsed := ctx.BlockTime().Sub(dutchAuction.StartTime)",
 		Replace: "\ttimeElapsed := ctx.BlockTime().Sub(dutchAuction.EndTime)", Rule: "R10.10", Contains: "UpdateDutchAuction"})
